@@ -688,12 +688,19 @@ Proof.
   destruct (sv_get (h_failed s1) sv'); [|exact Ho]. cbn zeta. cbn [upd h_nodes].
   destruct (sv_mem (h_nodes s1) sv'); cbn; exact Ho.
 Qed.
-Lemma set_many_state sv' values args d s : Forall okout (h_out s) ->
-  snd (safely_run_set_many c sv' values args s) = snd (safely_run c sv' (icall sv' 1 (DDict values :: args)) d s).
+Definition same_exc {A B} (r1 : exc A) (r2 : exc B) : Prop :=
+  match r1, r2 with Ok _, Ok _ => True | Raise e1, Raise e2 => e1 = e2 | _, _ => False end.
+Definition both {A B} (x : exc A * hstate) (y : exc B * hstate) : Prop := snd x = snd y /\ same_exc (fst x) (fst y).
+Lemma both_mark {A B} sv' (e : exn) (x : A) (y : B) (s : hstate) :
+  both (let (e1, s') := mark_failed c sv' s in match e1 with Ok _ => (if hc_ignore_exc c then hret x else hthrow e) s' | Raise e2 => (Raise e2, s') end)
+       (let (e1, s') := mark_failed c sv' s in match e1 with Ok _ => (if hc_ignore_exc c then hret y else hthrow e) s' | Raise e2 => (Raise e2, s') end).
+Proof. destruct (mark_failed c sv' s) as [[u|e2] s']; [destruct (hc_ignore_exc c)|]; split; cbn; auto. Qed.
+Lemma set_many_both sv' values args d s : Forall okout (h_out s) ->
+  both (safely_run_set_many c sv' values args s) (safely_run c sv' (icall sv' 1 (DDict values :: args)) d s).
 Proof.
   intros Ho. unfold safely_run_set_many, safely_run, htry, hbind, set_many_inner.
   assert (Tail : forall s1 : hstate, Forall okout (h_out s1) ->
-    snd (let (e, s') := (let (e, s') := (let (e, s') := icall sv' 1 (DDict values :: args) s1 in
+    both (let (e, s') := (let (e, s') := (let (e, s') := icall sv' 1 (DDict values :: args) s1 in
               match e with
               | Ok (DList failed) => (Ok (filter (not_in failed) (keys_of values), failed, None), s')
               | Ok _ => (Ok (keys_of values, [], None), s')
@@ -709,7 +716,7 @@ Proof.
                          (let (e1, s'0) := mark_failed c sv' s' in
                           match e1 with Ok _ => (if hc_ignore_exc c then hret (keys_of values) else hthrow e0) s'0 | Raise e2 => (Raise e2, s'0) end)
                        else if exn_isa e0 Exception_ then (if hc_ignore_exc c then (Ok (keys_of values), s') else (Raise e0, s')) else (Raise e0, s') end)
-    = snd (let (e, s') := icall sv' 1 (DDict values :: args) s1 in
+      (let (e, s') := icall sv' 1 (DDict values :: args) s1 in
            match e with
            | Ok a => (Ok a, s')
            | Raise e0 => dispatch_handlers
@@ -718,23 +725,26 @@ Proof.
                 (Exception_, fun e1 : exn => if hc_ignore_exc c then hret d else hthrow e1)] e0 s' end)).
   { intros s1 H1. destruct (icall_total sv' 1 (DDict values :: args) s1) as (o & s2 & Ei & Hk). rewrite Ei. specialize (Hk H1).
     destruct o as [v|e].
-    - destruct v; reflexivity.
-    - cbn [okout] in Hk. rewrite Hk. cbn [hthrow]. cbn [dispatch_handlers]. rewrite Hk. rewrite !snd_then'. reflexivity. }
+    - destruct v; split; cbn; auto.
+    - cbn [okout] in Hk. rewrite Hk. cbn [hthrow]. cbn [dispatch_handlers]. rewrite Hk. apply both_mark. }
   destruct (sv_get (h_failed s) sv') as [[att ft]|] eqn:Er.
   - destruct (att <? ra).
     + destruct (now_total s) as (t & s1 & En & Ho1 & Hf1). rewrite En. rewrite <- Ho1 in Ho.
-      destruct (t - ft >? rt); [|reflexivity].
+      destruct (t - ft >? rt); [|split; cbn; auto].
       destruct (icall_total sv' 1 (DDict values :: args) s1) as (o & s2 & Ei & Hk). rewrite Ei. specialize (Hk Ho).
       destruct o as [v|e].
-      * destruct v; reflexivity.
-      * cbn [okout] in Hk. rewrite Hk. cbn [hthrow]. cbn [dispatch_handlers]. rewrite Hk. rewrite !snd_then'. reflexivity.
+      * destruct v; split; cbn; auto.
+      * cbn [okout] in Hk. rewrite Hk. cbn [hthrow]. cbn [dispatch_handlers]. rewrite Hk. apply both_mark.
     + pose proof (remove_out sv' s) as Hro.
       destruct (remove_server sv' s) as [[u|e] s1]; cbn [snd] in Hro.
       * cbn [hret]. rewrite <- Hro in Ho. apply (Tail s1 Ho).
-      * destruct (exn_isa e OSError) eqn:E1; cbn [dispatch_handlers]; rewrite E1; [rewrite !snd_then'; reflexivity|].
-        destruct (exn_isa e Exception_); [destruct (hc_ignore_exc c); reflexivity|reflexivity].
+      * destruct (exn_isa e OSError) eqn:E1; cbn [dispatch_handlers]; rewrite E1; [apply both_mark|].
+        destruct (exn_isa e Exception_); [destruct (hc_ignore_exc c)|]; split; cbn; auto.
   - apply (Tail s Ho).
 Qed.
+Lemma set_many_state sv' values args d s : Forall okout (h_out s) ->
+  snd (safely_run_set_many c sv' values args s) = snd (safely_run c sv' (icall sv' 1 (DDict values :: args)) d s).
+Proof. intros Ho. apply (set_many_both sv' values args d s Ho). Qed.
 Lemma FR_set_many sv' values args : list_eqb sv' sv = false -> FR (safely_run_set_many c sv' values args).
 Proof.
   intros N s Gs. rewrite (set_many_state sv' values args (DList []) s (g_out s Gs)).
